@@ -33,15 +33,26 @@
      C04_prints_admitted_all     CONTRACTION as well: every parsed, accepted, closed program with one provider name per declaration
                                  (drop, split, all connectives), both polarized modes (C04_refines_sax_all: one model step is zero or
                                  one step of Sax.v with its structural rules)
+     C04_prints_admitted_np_plain  NON-POLARIZED mode, plain programs (no forward / drop / split, one provider name per
+                                 process): an NP run IS the synchronous run (PlainNP.plain_run_eq)
+     C04_prints_admitted_np_fwd  NON-POLARIZED mode, programs with FORWARDS (no drop, no split, one provider name per process):
+                                 Control f t is Sax's rule id (C04_refines_sax_np_control); per step C04_refines_sax_np;
+                                 with C03's NP determinism: C04_results_unique_admitted_np_fwd
+     C04_prints_admitted_all2    TWO PROVIDER NAMES: the same for every parsed, accepted, closed program whose declarations have one or
+                                 two provider names, from spec/SaxInit2.sax_init2 (= sax_init on single-name programs;
+                                 C04_alpha_init2: it is the abstraction of the interpreter's initial configuration)
    What rests on the correspondence only: that the real interpreter's prints and their order are the
-   model's (suite `run`); results for programs with multi-name provider declarations (prc[a,b]); results in
-   the non-polarized mode; uniqueness of the multiset. *)
+   model's (suite `run`); results for programs with declarations of MORE THAN TWO provider names (n-ary split); results in
+   the non-polarized mode for programs with drop (NP reclaims nothing: the dropped subtree stays as objects that
+   Sax.v may still step, next to a pending drop request that never fires — a simulation up to such garbage is
+   not proved) or split. *)
 From stdpp Require Import gmap strings.
 Require Import Grits.Base Grits.Forms Grits.STypes Grits.Runtime.
 Require Import Grits.spec.Sax Grits.proofs.Causality Grits.proofs.SaxRefine Grits.proofs.SaxInv Grits.proofs.C04Examples.
 Require Import Grits.Expand Grits.TcTop Grits.spec.RtTyping Grits.spec.Topo Grits.proofs.RtTheorems Grits.proofs.RtTcSyn
                Grits.proofs.TopoLin Grits.proofs.TopoStep Grits.proofs.TopoReach Grits.proofs.AsyncSync Grits.proofs.SaxTyped Grits.proofs.DeterminismAll
-               Grits.proofs.InitAccept Grits.proofs.SaxAccept Grits.proofs.InvAll Grits.proofs.SaxDrop Grits.proofs.SaxSplit.
+               Grits.proofs.InitAccept Grits.proofs.SaxAccept Grits.proofs.InvAll Grits.proofs.SaxDrop Grits.proofs.SaxSplit
+               Grits.proofs.DeterminismNP Grits.proofs.SaxNP Grits.spec.SaxInit2 Grits.proofs.SaxTwo Grits.proofs.DeterminismNPCfree.
 
 Theorem C04_trace_causal : forall md (p : program) fuel pick r tr,
   exec_trace fuel pick md (p_types p) (p_funs p) (init_config p) [] = (r, tr) ->
@@ -255,6 +266,146 @@ Example C04_ex_all :
   c04_all_text ex_text = true.
 Proof. vm_compute. repeat split; reflexivity. Qed.
 
+(* ------------------------------------------------------------------ TWO PROVIDER NAMES (spec/SaxInit2.v, proofs/SaxTwo.v).  `prc[a,b] : T = P` is the
+   contraction of P: Sax.v's proc(c,P) next to a pending split(a,b,c), whose only step is s_copy; `sax_init2` is the
+   configuration after that forced step (two copies of P, one pending split per free name; a pending split(a,b,x) if P
+   is `fwd self x`), and equals Sax.sax_init when every declaration has one name.  It IS the abstraction of the
+   interpreter's initial configuration (C04_alpha_init2), so `single_decls` goes away for declarations with <= 2 names. *)
+Theorem C04_alpha_init2 : forall p : program, decls_le2 p = true -> α (init_config p) ≡ₚ sax_init2 p.
+Proof. exact alpha_init2. Qed.
+
+Theorem C04_sax_init2_single : forall p : program, single_decls p = true -> sax_init2 p = sax_init p.
+Proof. exact sax_init2_single. Qed.
+
+Theorem C04_prints_admitted_all2 : forall md txt p p',
+  is_np md = false ->
+  parse_string txt = POk p -> typecheck p = Accept p' -> in_fragment p' -> decls_le2 p' = true ->
+  forall fuel pick, exists C',
+    sax_steps (p_funs p') true (sax_init2 p')
+      (labels (res_config (exec_run fuel pick md (p_types p') (p_funs p') (init_config p')))) C'.
+Proof. exact prints_admitted_all2. Qed.
+
+Theorem C04_prints_admitted_all2_text : forall txt, c04_all2_text txt = true ->
+  exists p p', parse_string txt = POk p /\ typecheck p = Accept p' /\
+  forall md, is_np md = false -> forall fuel pick, exists C',
+    sax_steps (p_funs p') true (sax_init2 p')
+      (labels (res_config (exec_run fuel pick md (p_types p') (p_funs p') (init_config p')))) C'.
+Proof. exact prints_admitted_all2_text. Qed.
+
+Theorem C04_results_unique_admitted_all2 : forall md txt p p' pick1 f1 t1,
+  is_np md = false ->
+  parse_string txt = POk p -> typecheck p = Accept p' -> in_fragment p' -> decls_le2 p' = true ->
+  exec_run f1 pick1 md (p_types p') (p_funs p') (init_config p') = RQuiescent t1 ->
+  (exists C', sax_steps (p_funs p') true (sax_init2 p') (labels t1) C') /\
+  (forall pick2 f2, (f1 <= f2)%nat ->
+     exists t2, exec_run f2 pick2 md (p_types p') (p_funs p') (init_config p') = RQuiescent t2 /\ labels t2 ≡ₚ labels t1).
+Proof. exact results_unique_admitted_all2. Qed.
+
+(* non-vacuity: two programs with a two-name declaration (outside c04_all_text); the first prints made twice *)
+Example C04_ex_all2 :
+  c04_all2_text example_two_text = true /\ c04_all_text example_two_text = false /\
+  c04_all2_text example_two_call_text = true /\ c04_all2_text RtTheorems.example_split_text = true /\
+  RtTheorems.run_text example_two_text Async (fun _ _ => 0%nat) = Some (0%nat, ["made"; "made"; "done"], true).
+Proof. vm_compute. repeat split; reflexivity. Qed.
+
+(* ------------------------------------------------------------------ NON-POLARIZED mode (proofs/SaxNP.v).  Plain programs (no forward, no drop,
+   no split in any body, one provider name per process: DeterminismNP.plain_src_b on the SOURCE program): the NP run
+   under any oracle IS the synchronous run under that oracle (PlainNP.plain_run_eq), so the labels of every NP run are
+   printed by spec/Sax.v from sax_init p'.  plain_src_b implies single_decls p' (plain_src_single_decls). *)
+Theorem C04_prints_admitted_np_plain : forall txt p p',
+  parse_string txt = POk p -> typecheck p = Accept p' -> in_fragment p' -> plain_src_b p = true ->
+  forall fuel pick, exists C',
+    sax_steps (p_funs p') true (sax_init p')
+      (labels (res_config (exec_run fuel pick NP (p_types p') (p_funs p') (init_config p')))) C'.
+Proof. exact prints_admitted_np_plain. Qed.
+
+Theorem C04_results_unique_admitted_np_plain : forall txt p p' pick1 f1 t1,
+  parse_string txt = POk p -> typecheck p = Accept p' -> in_fragment p' -> plain_src_b p = true ->
+  exec_run f1 pick1 NP (p_types p') (p_funs p') (init_config p') = RQuiescent t1 ->
+  (exists C', sax_steps (p_funs p') true (sax_init p') (labels t1) C') /\
+  (forall pick2 f2, (f1 <= f2)%nat ->
+     exists t2, exec_run f2 pick2 NP (p_types p') (p_funs p') (init_config p') = RQuiescent t2 /\ labels t2 ≡ₚ labels t1).
+Proof. exact results_unique_admitted_np_plain. Qed.
+
+(* the premises as one computable verdict on the text (driver `c04np`); ALL THREE modes *)
+Theorem C04_prints_admitted_np_plain_text : forall txt, c04_np_plain_text txt = true ->
+  exists p p', parse_string txt = POk p /\ typecheck p = Accept p' /\
+  forall md fuel pick, exists C',
+    sax_steps (p_funs p') true (sax_init p')
+      (labels (res_config (exec_run fuel pick md (p_types p') (p_funs p') (init_config p')))) C'.
+Proof. exact prints_admitted_np_plain_text. Qed.
+
+Example C04_ex_np_plain : c04_np_plain_text RtTheorems.example_text = true.
+Proof. vm_compute. reflexivity. Qed.
+
+(* NP beyond plain programs: FORWARDS (fwf_src_b on the SOURCE: no drop, no split in any body, one provider name per
+   process; forwards allowed).  In NP a forward offers its providers on the control channel of its client channel and
+   the provider of that channel adopts them (Control f t): this IS the rule id of spec/Sax.v (provider renaming), without
+   a FWD message in between (C04_refines_sax_np_control).  Every other NP step of the class is one asynchronous step
+   (Run) or two (Rendezvous), read by C04_refines_sax_all. *)
+Theorem C04_refines_sax_np_control : forall D F teq c f t c',
+  InvX D F teq c -> bufs_empty c -> FwCfg c -> step NP D F c (Control f t) = SStep c' ->
+  sax_step F true (α c) [] (α c') /\ labels c' = labels c.
+Proof. exact refines_control. Qed.
+
+Theorem C04_refines_sax_np : forall D F teq, teq_laws D teq -> funs_typed D F teq -> TopoStep.funs_aff F -> nofd_funs F ->
+  forall c ch c', InvX D F teq c -> bufs_empty c -> FwCfg c -> step NP D F c ch = SStep c' ->
+  exists ls, sax_steps F true (α c) ls (α c') /\ labels c' = labels c ++ ls.
+Proof. exact refines_np_step. Qed.
+
+Theorem C04_fwcfg_step_np : forall D F, fwf_funs F ->
+  forall c ch c', FwCfg c -> bufs_empty c -> step NP D F c ch = SStep c' -> FwCfg c'.
+Proof. exact fw_step_np. Qed.
+
+Theorem C04_prints_admitted_np_fwd : forall txt p p',
+  parse_string txt = POk p -> typecheck p = Accept p' -> in_fragment p' -> fwf_src_b p = true ->
+  forall fuel pick, exists C',
+    sax_steps (p_funs p') true (sax_init p')
+      (labels (res_config (exec_run fuel pick NP (p_types p') (p_funs p') (init_config p')))) C'.
+Proof. exact prints_admitted_np_fwd. Qed.
+
+Theorem C04_results_unique_admitted_np_fwd : forall txt p p' pick1 f1 t1,
+  parse_string txt = POk p -> typecheck p = Accept p' -> in_fragment p' -> fwf_src_b p = true ->
+  exec_run f1 pick1 NP (p_types p') (p_funs p') (init_config p') = RQuiescent t1 ->
+  (exists C', sax_steps (p_funs p') true (sax_init p') (labels t1) C') /\
+  (forall pick2 f2, (f1 <= f2)%nat ->
+     exists t2, exec_run f2 pick2 NP (p_types p') (p_funs p') (init_config p') = RQuiescent t2 /\ labels t2 ≡ₚ labels t1).
+Proof. exact results_unique_admitted_np_fwd. Qed.
+
+(* one computable verdict on the text (driver `c04npfwd`); ALL THREE modes *)
+Theorem C04_prints_admitted_np_fwd_text : forall txt, c04_np_fwd_text txt = true ->
+  exists p p', parse_string txt = POk p /\ typecheck p = Accept p' /\
+  forall md fuel pick, exists C',
+    sax_steps (p_funs p') true (sax_init p')
+      (labels (res_config (exec_run fuel pick md (p_types p') (p_funs p') (init_config p')))) C'.
+Proof. exact prints_admitted_np_fwd_text. Qed.
+
+(* non-vacuity: the C04 example program has two forwards (and is not plain) *)
+Example C04_ex_np_fwd : c04_np_fwd_text ex_text = true /\ c04_np_plain_text ex_text = false.
+Proof. vm_compute. split; reflexivity. Qed.
+
+(* the contraction-free class (cfree_src_b: forwards AND drop): full statement SaxNP.prints_admitted_np_cfree_stmt; proved
+   with the extra premise "no drop in any body" (_partial).  Building blocks for the rest: in NP `drop x; k` is s_drop whose
+   pending request stays (C04_refines_np_drop), and requests that mention only channels of the configuration do not
+   disturb a step (C04_sax_step_frame); missing: that the channel of such a request keeps occurring in α c. *)
+Theorem C04_prints_admitted_np_cfree_partial : forall txt p p',
+  parse_string txt = POk p -> typecheck p = Accept p' -> in_fragment p' -> cfree_src_b p = true -> nodrop_src_b p = true ->
+  forall fuel pick, exists C',
+    sax_steps (p_funs p') true (sax_init p')
+      (labels (res_config (exec_run fuel pick NP (p_types p') (p_funs p') (init_config p')))) C'.
+Proof. exact prints_admitted_np_cfree_partial. Qed.
+
+Theorem C04_refines_np_drop : forall D F teq Δ c p n0 a x k nx c',
+  cfg_typed D F teq Δ c -> procs c !! p = Some (Proc [n0] (FDrop x k) nx) -> chan n0 = Some a ->
+  step NP D F c (Run p) = SStep c' ->
+  exists b, chan x = Some b /\ sax_step F true (α c) [] (α c' ++ [SDrop b]) /\ labels c' = labels c.
+Proof. exact refines_np_drop. Qed.
+
+Theorem C04_sax_step_frame : forall F str C ls C' G,
+  (forall z, z ∈ cfg_cids G -> z ∈ cfg_cids C) ->
+  sax_step F str C ls C' -> sax_step F str (C ++ G) ls (C' ++ G).
+Proof. exact sax_step_frame. Qed.
+
 Theorem C04_tres_from_typing : forall D F teq, teq_laws D teq -> funs_typed D F teq ->
   forall Δ c, cfg_typed D F teq Δ c -> Topo c -> tres D c.
 Proof. exact tres_typed_topo. Qed.
@@ -366,6 +517,26 @@ Print Assumptions C04_prints_admitted_all.
 Print Assumptions C04_prints_admitted_all_text.
 Print Assumptions C04_results_unique_admitted_all.
 Print Assumptions C04_ex_all.
+Print Assumptions C04_alpha_init2.
+Print Assumptions C04_sax_init2_single.
+Print Assumptions C04_prints_admitted_all2.
+Print Assumptions C04_prints_admitted_all2_text.
+Print Assumptions C04_results_unique_admitted_all2.
+Print Assumptions C04_ex_all2.
+Print Assumptions C04_prints_admitted_np_plain.
+Print Assumptions C04_results_unique_admitted_np_plain.
+Print Assumptions C04_prints_admitted_np_plain_text.
+Print Assumptions C04_ex_np_plain.
+Print Assumptions C04_refines_sax_np_control.
+Print Assumptions C04_refines_sax_np.
+Print Assumptions C04_fwcfg_step_np.
+Print Assumptions C04_prints_admitted_np_fwd.
+Print Assumptions C04_results_unique_admitted_np_fwd.
+Print Assumptions C04_prints_admitted_np_fwd_text.
+Print Assumptions C04_ex_np_fwd.
+Print Assumptions C04_prints_admitted_np_cfree_partial.
+Print Assumptions C04_refines_np_drop.
+Print Assumptions C04_sax_step_frame.
 Print Assumptions C04_tres_from_typing.
 Print Assumptions C04_core_invariant_gives_Inv.
 Print Assumptions C04_refines_sax_core.
